@@ -175,6 +175,10 @@ TEMPLATES = [
     ('2.0', 'xs:dateTime("1999-12-31T22:00:00") lt $d'), ('2.0', 'string(implicit-timezone())'),
     ('2.0', 'hours-from-dateTime(adjust-dateTime-to-timezone(xs:dateTime("2000-01-01T12:00:00Z")))'),
     ('2.0', 'xs:dateTime("2000-01-01T00:00:00") eq xs:dateTime("2000-01-01T00:00:00Z")'),
+    ('2.0', 'string($d - xs:dateTime("2000-01-01T00:00:00Z"))'), ('2.0', 'string(xs:dateTime("2000-06-01T00:00:00Z") - $d)'),
+    ('2.0', 'string($d + xs:dayTimeDuration("PT1H"))'), ('2.0', 'string(adjust-dateTime-to-timezone($d, ()))'),
+    ('2.0', 'string(adjust-dateTime-to-timezone($d, xs:dayTimeDuration("PT2H")))'),
+    ('2.0', 'string(xs:date("2000-01-01") - xs:date("1999-12-31Z"))'),
     ('3.0', 'let $f := function($a) { $a + $x } return $f(1)'),
     ('3.0', 'for-each((1, 2), function($a) { $a * $x })'),
     ('3.0', 'let $f := function() { //a/@v } return count($f())'),
